@@ -168,6 +168,50 @@ Emit == (Done /\ EmitMod > 0 /\ Hash % EmitMod = 0) =>
                   defaults |-> [n \in mi.sN \cup mi.pN |-> Eval(mi.ex[n], <<>>, FALSE)],
                   unused |-> {n \in mi.iN : ~HasDependents(mi, n)},
                   cases |-> [ii \in 1..Len(Inputs) |-> [input |-> InputJson(Inputs[ii]), expect |-> Expect(Inputs[ii])]]]))
+\* ---- C13: component split ----
+\* C.to_ode() keeps the blocks of component C, model - C the others
+SubBlocks(c, keep) == SelectSeq(ModelOf(deps, layout).blocks, LAMBDA b : (b.comp = c) = keep)
+SubInfo(c, keep) == Info([blocks |-> SubBlocks(c, keep)])
+\* values of the full model, by name, used to feed a half its missing variables
+FullDen(inp) == DenAll(mi, inp)
+SubInput(smi, inp) == LET den == FullDen(inp) IN
+   [t |-> inp.t, dt |-> inp.dt, states |-> [s \in smi.sN |-> inp.states[s]], params |-> [p \in smi.pN |-> inp.params[p]],
+    missing |-> [n \in smi.missing |-> den[n]]]
+HalfOk(smi, inp) ==
+   LET sl == Layout(smi, CanonSched(smi))
+       sinp == SubInput(smi, inp)
+       den == FullDen(inp)
+   IN /\ SameVals(ByNames(sl.state, Exec(EmitRhs(smi, sl, FALSE), sl, sinp)), [s \in smi.sN |-> den[DName(s)]])
+      /\ SameVals(ByNames(sl.monitor, Exec(EmitMonitor(smi, sl, FALSE), sl, sinp)), [n \in smi.aN |-> den[n]])
+      /\ SameVals(ByNames(sl.state, Exec(EmitScheme(smi, sl, FALSE, "explicit_euler", {}, DeltaAst), sl, sinp)),
+                  [s \in smi.sN |-> DenEulerV(inp.states[s], inp.dt, den[DName(s)])])
+      /\ NoUseBeforeDef(EmitRhs(smi, sl, TRUE)) /\ NoUseBeforeDef(EmitMonitor(smi, sl, TRUE))
+IsSplit == Done /\ layout = "split"
+C13_MissingExact == IsSplit => \A c \in {"A", "B"} : \A keep \in BOOLEAN :
+   LET smi == SubInfo(c, keep) IN smi.missing = UsedAll(smi) \ (smi.def \cup TimeNames)
+C13_StatesPartition == IsSplit => \A c \in {"A", "B"} :
+   LET a == SubInfo(c, TRUE) b == SubInfo(c, FALSE) IN a.sN \cup b.sN = mi.sN /\ a.sN \cap b.sN = {}
+C13_Recompose == IsSplit => \A c \in {"A", "B"} : \A keep \in BOOLEAN : \A ii \in 1..Len(Inputs) :
+   LET smi == SubInfo(c, keep) IN (LoadOutcome(smi) = "ok" => HalfOk(smi, Inputs[ii]))
+\* the other half's requested values, computed by this half's missing_values function
+C13_MissingValues == IsSplit => \A c \in {"A", "B"} : \A ii \in 1..Len(Inputs) :
+   LET me == SubInfo(c, TRUE) other == SubInfo(c, FALSE)
+       req0 == SortByName(other.missing \cap me.def)
+       req == [n \in SeqSet(req0) |-> SlotIn(req0, n)]
+       sl == Layout(me, CanonSched(me))
+       den == FullDen(Inputs[ii])
+   IN (req0 # <<>> /\ LoadOutcome(me) = "ok") =>
+      SameVals(ByNames(req0, Exec(EmitMissingValues(me, sl, FALSE, req), sl, SubInput(me, Inputs[ii]))), [n \in SeqSet(req0) |-> den[n]])
+EmitSplit == (IsSplit /\ EmitMod > 0 /\ Hash % EmitMod = 0) =>
+   PrintT(ToJson([blocks |-> BlocksJson(ModelOf(deps, layout).blocks), split |-> TRUE,
+                  halves |-> [c \in {"A", "B"} |-> [own |-> [missing |-> SubInfo(c, TRUE).missing, states |-> SubInfo(c, TRUE).sN,
+                                                               assigns |-> SubInfo(c, TRUE).aN],
+                                                       rest |-> [missing |-> SubInfo(c, FALSE).missing, states |-> SubInfo(c, FALSE).sN,
+                                                                 assigns |-> SubInfo(c, FALSE).aN]]],
+                  cases |-> [ii \in 1..Len(Inputs) |-> [input |-> InputJson(Inputs[ii]),
+                                                         den |-> FullDen(Inputs[ii]),
+                                                         euler |-> DenEuler(mi, Inputs[ii])]]]))
+
 \* models on which the iteration schedule of the dependency sets changes the layout (FreeSchedule = TRUE only):
 \* the witnesses of C09 that the harness replays under different hash seeds
 EmitSchedSensitive == (Done /\ lay # Layout(mi, CanonSched(mi))) =>
